@@ -24,6 +24,8 @@
 (*   tree     serde_json and sval_json of the value are what the original  *)
 (*            produces, whichever framework captured it                    *)
 (*   chain    to_borrowed_error() yields the original's source chain       *)
+(*            ... and Display shows the top error alone or with the ROOT   *)
+(*            cause (the last link) in parentheses, never another link     *)
 (*   null     the value is the null value (as_value of None)               *)
 (*   text_stable  a number / boolean / string captured typed shows the same *)
 (*            Display text on every representation and read path (the copy *)
@@ -105,7 +107,10 @@ Base(m) ==
       [] OTHER -> m
 
 \* the macro form around the capture
-Wraps == {"props", "key_first", "key_last", "evt_prop", "evt_hole"}
+\* ... and attribute ORDER: a true `#[cfg(all())]` on the pair, written before the capture attribute(s)
+\* (cfg_first), after them (cfg_last), or between `#[emit::optional]` and the mode (cfg_between).  A cfg
+\* that holds does not change the capture mode: the meaning is that of the site without it.
+Wraps == {"props", "key_first", "key_last", "evt_prop", "evt_hole", "cfg_first", "cfg_last", "cfg_between"}
 WrapModes == {"default", "as_display", "as_debug", "as_value", "as_sval", "as_serde", "as_error"}
 WrapClasses == {"int", "string", "struct", "error"}
 
@@ -147,7 +152,11 @@ Valid(m, c) ==
     THEN ValidBase(Base(m), Base(m), c) /\ c \in {"int", "float", "string", "char", "struct", "debug_only", "display_only"}
     ELSE ValidBase(m, Base(m), c)
 ValidWrap(m, c, w) ==
-    w = "props" \/ (m \in WrapModes /\ c \in WrapClasses /\ Valid(m, c))
+    \/ w = "props"
+    \/ w = "cfg_between" /\ m \in OptionalModes /\ c \in WrapClasses /\ Valid(m, c)
+    \/ w = "cfg_first" /\ m \in WrapModes /\ c \in WrapClasses /\ Valid(m, c)
+    \/ w = "cfg_last" /\ m \in WrapModes \cup OptionalModes /\ c \in WrapClasses /\ Valid(m, c)
+    \/ w \notin {"props", "cfg_first", "cfg_last", "cfg_between"} /\ m \in WrapModes /\ c \in WrapClasses /\ Valid(m, c)
 
 Sites == {s \in Modes \X Classes \X Wraps : Valid(s[1], s[2]) /\ ValidWrap(s[1], s[2], s[3])}
 
